@@ -996,6 +996,17 @@ def _run_beh_sync(sc: Scenario, tok: str, args: Any, kwargs: Any, depvals: Any, 
     on_loop = threading.current_thread() is threading.main_thread()
     sc.trace.add("task_start", d, tok=tok, args=safe_json(list(args)), kwargs=safe_json(kwargs),
                  echo=echo, deps=safe_json(depvals), thread=True, **({"on_loop_thread": True} if on_loop else {}))
+    if beh.get("probe_loop") and not on_loop and sc.trace.loop is not None:
+        # is the worker's event loop alive while this function runs in its thread?  (a loop that waits for this very
+        # function with a blocking call processes nothing else meanwhile, whatever the limits say)
+        pinged = threading.Event()
+        try:
+            sc.trace.loop.call_soon_threadsafe(pinged.set)
+            alive = pinged.wait(3.0)
+        except RuntimeError:
+            alive = True  # loop already closed: the run is over
+        if not alive and not getattr(sc, "closing", False):
+            sc.trace.add("loop_blocked", d, tok=tok)
     if on_loop:
         # a blocking function called on the event-loop thread: nothing else can happen in the worker meanwhile (recorded;
         # the harness does not block the loop on top of it)
